@@ -700,10 +700,33 @@ func ruleOMShape(c *Ctx) {
 			continue
 		}
 		p := fn.Params[len(fn.Params)-1]
-		_, hasOmit := hasOmitField(P, ct.T)
-		derivesFromP := func(v ssa.Value) bool {
-			s := accessPath(v)
-			return strings.Contains(s, p.Name())
+		// does the method itself consult an omitEmpty flag?
+		hasOmit := false
+		for _, b := range fn.Blocks {
+			for _, in := range b.Instrs {
+				if v, ok := in.(ssa.Value); ok && strings.HasSuffix(recvPathOfValue(fn, v, 0), "omitEmpty") {
+					hasOmit = true
+				}
+			}
+		}
+		var derivesFromP func(v ssa.Value) bool
+		derivesFromP = func(v ssa.Value) bool {
+			switch x := v.(type) {
+			case *ssa.BinOp:
+				return derivesFromP(x.X) || derivesFromP(x.Y)
+			case *ssa.Call:
+				for _, a := range x.Call.Args {
+					if derivesFromP(a) {
+						return true
+					}
+				}
+				return false
+			case *ssa.UnOp:
+				if x.Op != token.MUL {
+					return derivesFromP(x.X)
+				}
+			}
+			return strings.Contains(accessPath(v), p.Name())
 		}
 		bad := ""
 		canTrue := false
@@ -718,7 +741,7 @@ func ruleOMShape(c *Ctx) {
 			// omitEmpty known true on this path?
 			omitTrue := false
 			for bv, t := range pa.State.bools {
-				if f, ok := recvFieldOf(fn, bv); ok && strings.HasSuffix(f, "omitEmpty") && t {
+				if strings.HasSuffix(recvPathOfValue(fn, bv, 0), "omitEmpty") && t {
 					omitTrue = true
 				}
 			}
@@ -756,6 +779,14 @@ func ruleOMShape(c *Ctx) {
 			if !derivesFromP(v) {
 				if call, isCall := v.(*ssa.Call); !isCall || !derivesFromP(call.Call.Args[0]) && !(len(call.Call.Args) > 0 && derivesFromP(call.Call.Args[len(call.Call.Args)-1])) {
 					bad = "the value returned does not test the value p points to"
+				}
+			}
+		}
+		// a codec that declares its own omitEmpty flag must consult it
+		if st, isS := ct.T.Underlying().(*types.Struct); isS && !hasOmit && bad == "" {
+			for i := 0; i < st.NumFields(); i++ {
+				if st.Field(i).Name() == "omitEmpty" && canTrue {
+					bad = "the codec has an omitEmpty flag but Omit does not consult it: values are omitted although omitempty was not asked for"
 				}
 			}
 		}
